@@ -147,6 +147,16 @@ CHECKS["C16"] = dict(
          "(20 operation groups x <=4 shapes x 3 noreply x 4 states x 4 presets). " + NETNOTE,
     design="3 (C16)", technique=CH)
 
+CHECKS["C19"] = dict(
+    text="Bounded symbolic execution of AWSElastiCacheHashClient over the network model: advertised node subsets of a 4-node "
+         "universe for up to 2 (thorough 3) successive configurations, use_vpc and the cut position of the config reply are "
+         "symbolic; after construction and after every reconfigure_nodes() the rotation must equal the advertised names, a "
+         "10-key corpus must be routed (real set) only to advertised nodes on the advertised address form and port, "
+         "replaced clients' connections must be closed; error-line answers must raise the matching memcached error. "
+         "All shards exhaust.",
+    note="Bound: 4 nodes (the property mentions up to 6), cut at every position of the reply + receive sizes 4 and 7. " + NETNOTE,
+    design="3 (C19)", technique=CH)
+
 NOT_YET = {}
 
 NA_REASON_PENDING = "check not built yet in this session (planned; see DESIGN.md section 3)"
